@@ -30,6 +30,9 @@ SAN_RELATIONS = {
     "ipv4": ([("ip", "192.0.2.7"), ("dns", "a.example")], ["a.example"], ["192.0.2.7"], True),
     "ipv6-other-spelling": ([("ip", "2001:0DB8:0:0:0:0:0:1")], [], ["2001:db8::1"], True),
     "ip-missing": ([("ip", "192.0.2.7"), ("ip", "2001:db8::2")], [], ["192.0.2.7"], False),
+    # two configured identifiers that normalise to the same value: the certificate covers them with one SAN
+    "same-name-twice-after-normalisation": ([("dns", "a.example"), ("dns", "A.Example")], ["a.example"], [], True),
+    "same-ip-twice-after-normalisation": ([("ip", "2001:db8::1"), ("ip", "2001:0db8:0:0:0:0:0:1"), ("dns", "a.example")], ["a.example"], ["2001:db8::1"], True),
 }
 
 
@@ -109,7 +112,7 @@ def judge(req, obs):
 
 def run(ctx):
     res = Result("exploration")
-    res.rule = ("full grid: 12 notAfter values (10 years ago .. 9999-12-31) x 6 renew_delay x 5 random_early_renew on a covering certificate; 10 SAN relations "
+    res.rule = ("full grid: 12 notAfter values (10 years ago .. 9999-12-31) x 6 renew_delay x 5 random_early_renew on a covering certificate; 12 SAN relations "
                 "(equal, permuted, superset, one missing, wildcard vs base both ways, IDN, IPv4, IPv6 spelled differently, IP missing) x 6 time settings; "
                 "file states {certificate missing, key missing, certificate unparsable}; each evaluated through MainEventLoop::new + the real "
                 "schedule_renewal, 64 draws each (the jitter is thread_rng's: the oracle is an interval). A freshly issued 90-day certificate must not be due.")
